@@ -142,38 +142,61 @@ TBracket(e) ==
 TAdHom(e) == MatChk("C03.hom.product", M(e.out), MMul(M(e.A1), M(e.A2)), TolC03(e.sc))
 TAdExp(e) == MatChk("C03.hom.exp", M(e.out), ExpM(M(e.ad)), TolC02(e.sc, FALSE))
 
-\* C04
-TDrExp(e) == JacChk("C04.dr_exp", M(e.out), XDrExp(e.g, V(e.a)), TolC04(e.sc))
-TDrExpInv(e, clause) == JacChk(clause, M(e.out), XDrExpInv(e.g, V(e.a)), TolC04(e.sc))
-TDlExp(e) == JacChk("C04.dl", M(e.out), XDlExp(e.g, V(e.a)), TolC04(e.sc))
-TDlExpInv(e) == JacChk("C04.dl.inv", M(e.out), XDlExpInv(e.g, V(e.a)), TolC04(e.sc))
-TDrRminusSqn(e) ==
-  LET a == V(e.a)  Y == <<MVec(MT(XDrExpInv(e.g, a)), a)>>
-  IN JacChk("C04.rminus.sqn", M(e.out), Y, TolC04(e.sc))
+\* C04: one event carries all first-order exp-Jacobians of one tangent vector
+FinOpt(e, f) == f \notin DOMAIN e \/ FinM(e[f])
+TC04(e) ==
+  LET g == e.g  a == V(e.a)  t == TolC04(e.sc)
+      J == XDrExp(g, a)                                   \* sum_k (-1)^k ad^k/(k+1)!
+      Jl == MMul(XAd_FromMatrix(g, XExp(g, a)), J)        \* dl_exp = Ad(exp a) dr_exp
+      Ji == MInvD(J)
+      Jli == MInvD(Jl)
+  IN JacChk("C04.dr_exp", M(e.dr_exp), J, t)
+     \o JacChk("C04.dl", M(e.dl_exp), Jl, t)
+     \o (IF e.inv = 1
+         THEN JacChk("C04.dr_expinv", M(e.dr_expinv), Ji, t)
+              \o JacChk("C04.dl.inv", M(e.dl_expinv), Jli, t)
+              \o JacChk("C04.rminus", M(e.dr_rminus), Ji, t)
+              \o JacChk("C04.rminus.sqn", M(e.dr_rminus_sqn), <<MVec(MT(Ji), a)>>, t)
+         ELSE <<>>)
+TC04Fin(e) == FinM(e.dr_exp) /\ FinM(e.dl_exp) /\ FinOpt(e, "dr_expinv") /\ FinOpt(e, "dl_expinv")
+              /\ FinOpt(e, "dr_rminus") /\ FinOpt(e, "dr_rminus_sqn")
 TDrAction(e) == JacChk("C04.action", M(e.out), XDrAction(e.g, V(e.a), V(e.v)), TolC04(e.sc))
 
-\* C05 (stacked layout: block i, entry (j,k) = d J(i,j) / d a_k)
-\* left Jacobian Jl(a) = Phi1(ad a); its directional derivatives
-XDlExpDirs(g, a) ==
-  LET n == Dof(g)  A == Xad(g, a)
-  IN [k \in 1..n |-> DPhi1M(A, Xad(g, VUnit(n, k)))]
-XD2lExp(g, a) == StackHess(Dof(g), XDlExpDirs(g, a))
-XD2lExpInv(g, a) ==
-  LET n == Dof(g)  Ji == MInv(Phi1M(Xad(g, a)))  dJ == XDlExpDirs(g, a)
-  IN StackHess(n, [k \in 1..n |-> MNeg(MMul(MMul(Ji, dJ[k]), Ji))])
-\* d/dx_k of Jinv(e(x)) = sum_m dJinv/de_m * Jinv(m,k)
-XD2rRminus(g, a) ==
-  LET n == Dof(g)  Ji == XDrExpInv(g, a)  H == XD2rExpInv(g, a)
-  IN [j \in 1..n |-> [col \in 1..(n * n) |->
-        LET i == ((col - 1) \div n) + 1  k == ((col - 1) % n) + 1
-        IN RDot([m \in 1..n |-> H[j][(i - 1) * n + m]], [m \in 1..n |-> Ji[m][k]])]]
-\* Hessian of 1/2 |e|^2 : (j,k) = sum_i Ji(i,j) Ji(i,k) + sum_i e_i d Ji(i,j)/dx_k
-XD2rRminusSqn(g, a) ==
-  LET n == Dof(g)  Ji == XDrExpInv(g, a)  H2 == XD2rRminus(g, a)
-  IN [j \in 1..n |-> [k \in 1..n |->
-        RAdd(RDot([i \in 1..n |-> Ji[i][j]], [i \in 1..n |-> Ji[i][k]]),
-             RDot(a, [i \in 1..n |-> H2[j][(i - 1) * n + k]]))]]
-THess(e, clause, Y) == JacChk(clause, M(e.out), Y, TolC05(e.sc))
+\* C05 (stacked layout: block i, entry (j,k) = d J(i,j) / d a_k); one event carries all Hessians
+TC05(e) ==
+  LET g == e.g  a == V(e.a)  t == TolC05(e.sc)  n == Dof(g)
+      A == MNeg(Xad(g, a))
+      \* right: J = Phi1(-ad a), dJ_k = D Phi1(-ad a)[-ad e_k]
+      PD == RForce([k \in 1..n |-> Phi1AndD(A, MNeg(Xad(g, VUnit(n, k))))])
+      J == IF n = 0 THEN <<>> ELSE PD[1][1]
+      dJ == RForce([k \in 1..n |-> PD[k][2]])
+      Ji == MInvD(J)
+      dJi == RForce([k \in 1..n |-> MNeg(MMul(MMul(Ji, dJ[k]), Ji))])          \* d(J^-1) = -J^-1 dJ J^-1
+      Hi == StackHess(n, dJi)
+      \* left: Jl = Phi1(ad a), dJl_k = D Phi1(ad a)[ad e_k]
+      PDl == RForce([k \in 1..n |-> Phi1AndD(MNeg(A), Xad(g, VUnit(n, k)))])
+      Jl == PDl[1][1]
+      dJl == RForce([k \in 1..n |-> PDl[k][2]])
+      Jli == MInvD(Jl)
+      dJli == RForce([k \in 1..n |-> MNeg(MMul(MMul(Jli, dJl[k]), Jli))])
+      \* d/dx_k of Jinv(e(x)) = sum_m dJinv/de_m * Jinv(m,k)
+      Hrm == RForce([j \in 1..n |-> [col \in 1..(n * n) |->
+               LET i == ((col - 1) \div n) + 1  k == ((col - 1) % n) + 1
+               IN RDot([m \in 1..n |-> Hi[j][(i - 1) * n + m]], [m \in 1..n |-> Ji[m][k]])]])
+      \* Hessian of 1/2 |e|^2 : (j,k) = sum_i Ji(i,j) Ji(i,k) + sum_i e_i d Ji(i,j)/dx_k
+      Hsq == RForce([j \in 1..n |-> [k \in 1..n |->
+               RAdd(RDot([i \in 1..n |-> Ji[i][j]], [i \in 1..n |-> Ji[i][k]]),
+                    RDot(a, [i \in 1..n |-> Hrm[j][(i - 1) * n + k]]))]])
+  IN JacChk("C05.d2r_exp", M(e.d2r_exp), StackHess(n, dJ), t)
+     \o JacChk("C05.d2l_exp", M(e.d2l_exp), StackHess(n, dJl), t)
+     \o (IF e.inv = 1
+         THEN JacChk("C05.d2r_expinv", M(e.d2r_expinv), Hi, t)
+              \o JacChk("C05.d2l_expinv", M(e.d2l_expinv), StackHess(n, dJli), t)
+              \o JacChk("C05.rminus", M(e.d2r_rminus), Hrm, t)
+              \o JacChk("C05.rminus.sqn", M(e.d2r_rminus_sqn), Hsq, t)
+         ELSE <<>>)
+TC05Fin(e) == FinM(e.d2r_exp) /\ FinM(e.d2l_exp) /\ FinOpt(e, "d2r_expinv") /\ FinOpt(e, "d2l_expinv")
+              /\ FinOpt(e, "d2r_rminus") /\ FinOpt(e, "d2r_rminus_sqn")
 
 ---------------------------------------------------------------------------
 Check(e) ==
@@ -193,26 +216,14 @@ Check(e) ==
     [] e.op = "bracket" -> IF FinV(e.out) /\ FinV(e.rev) /\ FinV(e.adab) /\ FinV(e.jacobi) THEN TBracket(e) ELSE NonFinite("C03.ad")
     [] e.op = "Adhom" -> IF FinM(e.out) /\ FinM(e.A1) /\ FinM(e.A2) THEN TAdHom(e) ELSE NonFinite("C03.hom")
     [] e.op = "Adexp" -> IF FinM(e.out) /\ FinM(e.ad) THEN TAdExp(e) ELSE NonFinite("C03.hom")
-    [] e.op = "dr_exp" -> IF FinM(e.out) THEN TDrExp(e) ELSE NonFinite("C04.dr_exp")
-    [] e.op = "dr_expinv" -> IF FinM(e.out) THEN TDrExpInv(e, "C04.dr_expinv") ELSE NonFinite("C04.dr_expinv")
-    [] e.op = "dr_rminus" -> IF FinM(e.out) THEN TDrExpInv(e, "C04.rminus") ELSE NonFinite("C04.rminus")
-    [] e.op = "dl_exp" -> IF FinM(e.out) THEN TDlExp(e) ELSE NonFinite("C04.dl")
-    [] e.op = "dl_expinv" -> IF FinM(e.out) THEN TDlExpInv(e) ELSE NonFinite("C04.dl.inv")
-    [] e.op = "dr_rminus_sqn" -> IF FinM(e.out) THEN TDrRminusSqn(e) ELSE NonFinite("C04.rminus.sqn")
+    [] e.op = "c04" -> IF TC04Fin(e) THEN TC04(e) ELSE NonFinite("C04.dr_exp")
     [] e.op = "dr_action" -> IF FinM(e.out) THEN TDrAction(e) ELSE NonFinite("C04.action")
-    [] e.op = "d2r_exp" -> IF FinM(e.out) THEN THess(e, "C05.d2r_exp", XD2rExp(e.g, V(e.a))) ELSE NonFinite("C05.d2r_exp")
-    [] e.op = "d2r_expinv" -> IF FinM(e.out) THEN THess(e, "C05.d2r_expinv", XD2rExpInv(e.g, V(e.a))) ELSE NonFinite("C05.d2r_expinv")
-    [] e.op = "d2l_exp" -> IF FinM(e.out) THEN THess(e, "C05.d2l_exp", XD2lExp(e.g, V(e.a))) ELSE NonFinite("C05.d2l_exp")
-    [] e.op = "d2l_expinv" -> IF FinM(e.out) THEN THess(e, "C05.d2l_expinv", XD2lExpInv(e.g, V(e.a))) ELSE NonFinite("C05.d2l_expinv")
-    [] e.op = "d2r_rminus" -> IF FinM(e.out) THEN THess(e, "C05.rminus", XD2rRminus(e.g, V(e.a))) ELSE NonFinite("C05.rminus")
-    [] e.op = "d2r_rminus_sqn" -> IF FinM(e.out) THEN THess(e, "C05.rminus.sqn", XD2rRminusSqn(e.g, V(e.a))) ELSE NonFinite("C05.rminus.sqn")
+    [] e.op = "c05" -> IF TC05Fin(e) THEN TC05(e) ELSE NonFinite("C05.d2r_exp")
     [] OTHER -> <<[clause |-> "TOOL.unknown_op", err |-> e.op, tol |-> ""]>>
 
 \* operands outside the property's domain are a harness error, never a verdict
 ElemOps == {"compose", "inverse", "assoc", "units", "matrix", "act", "log", "Ad", "Adhom", "dr_action"}
-TanOps == {"exp", "hat", "veelin", "ad", "bracket", "Adexp", "dr_exp", "dr_expinv", "dr_rminus", "dl_exp",
-           "dl_expinv", "dr_rminus_sqn", "d2r_exp", "d2r_expinv", "d2l_exp", "d2l_expinv", "d2r_rminus",
-           "d2r_rminus_sqn"}
+TanOps == {"exp", "hat", "veelin", "ad", "bracket", "Adexp", "c04", "c05"}
 DomainProblems(e) ==
   IF e.op \in ElemOps
   THEN (IF ElemInDomain(e.g, V(e.a), e.sc) THEN <<>> ELSE <<[clause |-> "TOOL.domain", err |-> e.op, tol |-> "a"]>>)
